@@ -314,6 +314,27 @@ theorem validate_ttm_tucker_ok_iff (a : TtmArgs) :
 theorem getD_set_ne (l : List Nat) (i j v : Nat) (h : i ≠ j) : (l.set i v).getD j 0 = l.getD j 0 := by
   simp [List.getD_eq_getElem?_getD, List.getElem?_set_ne h]
 
+theorem ttmStep_ok (tr : Bool) (mats : List MatS) (sh : List Nat) (p : Nat × Nat) (hp : p.2 < sh.length)
+    (hfit : (mats.getD p.1 (0, 0)).inner tr = sh.getD p.2 0) :
+    ttmStep tr mats sh p = .ok (sh.set p.2 ((mats.getD p.1 (0, 0)).outer tr)) := by
+  unfold ttmStep
+  rw [if_neg (by omega), if_neg (by rw [bne_iff_ne, ne_eq, not_not]; exact hfit)]
+
+theorem ttmStep_reject (tr : Bool) (mats : List MatS) (sh : List Nat) (p : Nat × Nat) (hp : p.2 < sh.length)
+    (hfit : ¬ (mats.getD p.1 (0, 0)).inner tr = sh.getD p.2 0) :
+    ttmStep tr mats sh p = .error .reject := by
+  unfold ttmStep
+  rw [if_neg (by omega), if_pos (by rw [bne_iff_ne]; exact hfit)]
+
+theorem ttmStep_ok_iff (tr : Bool) (mats : List MatS) (sh : List Nat) (p : Nat × Nat) (hp : p.2 < sh.length) :
+    (∃ b, ttmStep tr mats sh p = .ok b) ↔ (mats.getD p.1 (0, 0)).inner tr = sh.getD p.2 0 := by
+  by_cases hfit : (mats.getD p.1 (0, 0)).inner tr = sh.getD p.2 0
+  · rw [ttmStep_ok tr mats sh p hp hfit]; exact ⟨fun _ => hfit, fun _ => ⟨_, rfl⟩⟩
+  · rw [ttmStep_reject tr mats sh p hp hfit]
+    constructor
+    · rintro ⟨_, h⟩; cases h
+    · intro h; exact absurd h hfit
+
 /-- applying the matrices one after the other succeeds iff each matrix fits the ORIGINAL
 extent of its mode, because no mode is used twice -/
 theorem foldlM_ttmStep (tr : Bool) (mats : List MatS) :
@@ -329,10 +350,7 @@ theorem foldlM_ttmStep (tr : Bool) (mats : List MatS) :
     rw [List.map_cons, List.nodup_cons] at hnd
     simp only [List.foldlM_cons, List.mem_cons, forall_eq_or_imp]
     by_cases hfit : (mats.getD p.1 (0, 0)).inner tr = sh.getD p.2 0
-    · have hstep : ttmStep tr mats sh p = .ok (sh.set p.2 ((mats.getD p.1 (0, 0)).outer tr)) := by
-        unfold ttmStep
-        rw [if_neg (by omega), if_neg (by simp [hfit])]
-      rw [hstep]
+    · rw [ttmStep_ok tr mats sh p hp hfit]
       show (∃ s', rest.foldlM (ttmStep tr mats) (sh.set p.2 _) = .ok s') ↔ _
       rw [ih _ hnd.2 (by intro q hq; simpa using hlt q (List.mem_cons_of_mem _ hq))]
       simp only [hfit, true_and]
@@ -343,10 +361,7 @@ theorem foldlM_ttmStep (tr : Bool) (mats : List MatS) :
       · intro h q hq
         rw [h q hq, getD_set_ne]
         intro e; exact hnd.1 (List.mem_map.2 ⟨q, hq, e.symm⟩)
-    · have hstep : ttmStep tr mats sh p = .error .reject := by
-        unfold ttmStep
-        rw [if_neg (by omega), if_pos (by simp [hfit])]
-      rw [hstep]
+    · rw [ttmStep_reject tr mats sh p hp hfit]
       constructor
       · rintro ⟨s', h⟩; cases h
       · rintro ⟨h, _⟩; exact absurd h hfit
@@ -368,8 +383,10 @@ theorem pairing_modes (m : Nat) (sel : List Int) : (pairing m sel).map (·.2) = 
   · rw [if_neg h, List.map_map]; rfl
 
 theorem toNat_nodup {N : Nat} {sel : List Int} (h : ModesOK N sel) : (sel.map Int.toNat).Nodup := by
-  refine (List.nodup_map_iff_inj_on h.2).2 ?_
-  intro x hx y hy e
+  unfold List.Nodup
+  rw [List.pairwise_map]
+  refine List.Pairwise.imp_of_mem ?_ h.2
+  intro x y hx hy hne e
   have := (h.1 x hx).1
   have := (h.1 y hy).1
   omega
@@ -430,9 +447,7 @@ theorem validate_ttm_seq_ok_iff (a : TtmArgs) :
             have := hm.1 _ hmem
             unfold IsMode at this
             omega
-          have := foldlM_ttmStep a.tr a.mats [(0, ((selModes a.shape.length a.dims a.excl).getD 0 0).toNat)] a.shape
-            (by simp) (by simpa using hlt)
-          simpa [List.foldlM, bind, Except.bind, pure, Except.pure] using this
+          exact ttmStep_ok_iff a.tr a.mats a.shape (0, ((selModes a.shape.length a.dims a.excl).getD 0 0).toNat) hlt
         · rw [if_pos (by simp [h2])]
           simp [h2]
       · rw [if_pos (by simp [h1])]
